@@ -34,6 +34,9 @@ ANCHORS = [
     ("deepali.core.grid", "Grid.from_sitk"),
     ("deepali.core.grid", "Grid.from_reader"),
     ("deepali.core.grid", "Grid.from_file"),
+    ("deepali.utils.simpleitk.grid", "GridAttrs.transform"),
+    ("deepali.utils.simpleitk.grid", "GridAttrs.inverse_transform"),
+    ("deepali.utils.simpleitk.grid", "GridAttrs.center"),
     ("deepali.data.image", "Image.sitk"),
     ("deepali.data.image", "Image.from_sitk"),
     ("deepali.utils.simpleitk.torch", "image_from_tensor"),
@@ -50,7 +53,7 @@ def plan(tier, seed):
 def mandatory(tier):
     return [
         "route/origin", "route/center", "dir/identity", "dir/perm", "dir/rot", "D/2", "D/3",
-        "from_sitk", "image_sitk", "from_file", "index_outside", "index_inside",
+        "from_sitk", "image_sitk", "from_file", "index_outside", "index_inside", "grid_attrs",
     ]
 
 
@@ -155,6 +158,39 @@ def run_item(ctx, item):
             ctx.true("from_sitk_data_identical", im2.shape == im.shape and bool((im2.tensor() == im.tensor()).all()), shape=[list(im2.shape), list(im.shape)])
             header_checks(ctx, "roundtrip", im2.grid(), size, origin, spacing, direction, wtol.max(axis=0) * 2)
             ctx.true("roundtrip_grid_eq", im2.grid() == g or not grid_close_expected(g), got=repr(im2.grid()), want=repr(g))
+    # --- numpy grid attributes of a SimpleITK image (utils.simpleitk.grid): same maps, float64
+    with ctx.guard("image_grid_attributes", key="exc/GridAttrs", params=p):
+        from deepali.utils.simpleitk.grid import GridAttrs, image_grid_attributes
+
+        ctx.bucket("grid_attrs")
+        ga = image_grid_attributes(img)
+        ctx.true("attrs_header", list(ga.size) == [int(k) for k in size] and np.allclose(ga.origin, img.GetOrigin(), rtol=0, atol=0) and np.allclose(ga.spacing, img.GetSpacing(), rtol=0, atol=0) and np.allclose(ga.direction, img.GetDirection(), rtol=0, atol=0), key="GridAttrs/header", got=repr(ga))
+        idx64 = idx.astype(np.float64)
+        itk_p = np.array([img.TransformContinuousIndexToPhysicalPoint([float(v) for v in row]) for row in idx64])
+        scale = 1 + float(np.abs(itk_p).max())
+        ctx.close("attrs_index_to_physical_vs_itk", ga.index_to_physical_space(idx64), itk_p, 1e-10 * scale, key="GridAttrs/index_to_physical")
+        itk_back = np.array([img.TransformPhysicalPointToContinuousIndex([float(v) for v in row]) for row in itk_p])
+        iscale = 1 + float(np.abs(itk_back).max()) + scale / float(np.min(spacing))
+        # the generated direction cosines are orthonormal to float32 precision only; ITK inverts the matrix, the
+        # attributes use its transpose: the difference enters every world -> index map
+        orth = float(np.abs(direction.astype(np.float64) @ direction.astype(np.float64).T - np.eye(D)).max())
+        itol = (1e-9 + 8 * orth) * iscale
+        back = ga.physical_space_to_continuous_index(itk_p)
+        ctx.close("attrs_physical_to_continuous_index_vs_itk", back, itk_back, itol, key="GridAttrs/physical_to_index")
+        far = np.abs(itk_back - np.floor(itk_back) - 0.5) > 1e-6 + 2 * itol  # away from rounding ties
+        rows = far.all(axis=1)
+        if rows.any():
+            ctx.true("attrs_physical_to_index_is_nearest_sample", bool((ga.physical_space_to_index(itk_p)[rows] == np.round(itk_back[rows]).astype(int)).all()), key="GridAttrs/physical_to_index")
+        ctx.close("attrs_transform_times_inverse_is_identity", ga.transform @ ga.inverse_transform, np.eye(D + 1), itol, key="GridAttrs/matrices")
+        pts = ga.points
+        corner = tuple(int(k) - 1 for k in size)
+        ctx.true("attrs_points_shape", tuple(pts.shape) == tuple(int(k) for k in size[::-1]) + (D,), key="GridAttrs/points", got=list(pts.shape))
+        ctx.close("attrs_last_point_vs_itk", pts[tuple(corner[::-1])], np.array(img.TransformIndexToPhysicalPoint([int(c) for c in corner])), 1e-10 * scale, key="GridAttrs/points")
+        # both construction routes describe the same grid: center -> origin -> center
+        c0 = np.array(ga.center)
+        via_center = GridAttrs(size=ga.size, center=tuple(c0), spacing=ga.spacing, direction=ga.direction)
+        ctx.close("attrs_center_route_reproduces_origin", np.array(via_center.origin), np.array(ga.origin), 1e-10 * scale, key="GridAttrs/center_route")
+        ctx.close("attrs_center_route_reproduces_center", np.array(via_center.center), c0, 1e-10 * scale, key="GridAttrs/center_route")
     # --- Grid.from_file / from_reader
     if i % 4 == 0 and min(size) >= 1:
         with ctx.guard("Grid.from_file"):
